@@ -84,6 +84,16 @@ PLAN = {
         "assumptions": ASSUME_X + ["https hops reached directly use the in-memory transport with TLS elided; a hop that must be tunnelled ends at the ClientHello (in-memory peer does not speak TLS)"],
         "replay_runner": "loop", "replay_trace": "Trace_SendLoop",
     },
+    "C12": {
+        "mc": [],
+        "families": [{"gen": ("tlc", {"name": "tunnel", "tla": "MC_Tunnel.tla", "cfg": "MC_Tunnel.cfg", "workers": 8}),
+                      "runner": "loop", "trace": "Trace_SendLoop"},
+                     {"gen": ("tlc", {"name": "hop-chains", "tla": "MC_Hops.tla", "cfg": "MC_Hops.cfg", "workers": 8}),
+                      "runner": "loop", "trace": "Trace_SendLoop"}],
+        "rule": "CONNECT exchanges enumerated by TLC: every reply status 100..599; cross product of statuses x refusal body sizes (0, 1, 10239, 10240, 10241, 300000) x origin domain/IPv4/IPv6 x default/explicit port x http/https proxy x credentials; 2xx and refusal heads cut at every offset; malformed heads; plus redirect chains that enter a tunnel; the write log is ordered against reads so anything written before agreement is seen",
+        "assumptions": ASSUME_X + ["the in-memory proxy records the ClientHello (SNI) and closes: certificate verification against the origin's name inside the tunnel is exercised over real sockets by the C14 check"],
+        "replay_runner": "loop", "replay_trace": "Trace_SendLoop",
+    },
     "C09": {
         "mc": [],
         "families": [{"gen": ("tlc", {"name": "redirect-chains", "tla": "MC_Redirect.tla", "cfg": "MC_Redirect.cfg", "cfg_thorough": "MC_Redirect_thorough.cfg", "workers": 8}),
